@@ -78,15 +78,26 @@ def gen_program(rng, form=None):
     named_names = [nm for nm in names[npos:] if rng.random() < 0.5]
     sole = npos == 1 and not named_names
     cvals = {k: (v[1] if isinstance(v, tuple) else v) for k, v in caller_vars.items()}
-    pos = [gen_arg(rng, cvals, True, first=(j == 0), sole=sole) for j in range(npos)]
+    # the simple (parenthesis-free) call syntax also allows positional arguments AFTER named ones; the positional ones
+    # still bind by their order among the positional arguments
+    mixed = bool(npos and named_names and rng.random() < 0.3)
+    pos = [gen_arg(rng, cvals, True, first=(j == 0 and not mixed), sole=sole) for j in range(npos)]
     named = {}
     for nm in named_names:
         named[nm] = gen_arg(rng, cvals, False)
     named_items = list(named.items())
     rng.shuffle(named_items)
-    args = " ".join(s for s, _ in pos)
-    if named_items:
-        args += " " + " ".join("$%s=%s" % (k, s) for k, (s, _) in named_items)
+    if mixed:
+        toks = [("p", s_) for s_, _ in pos]
+        for k_, (s_, _) in named_items:
+            # never in front of a positional that would then read as a subscript / subtraction: all positionals were generated `not first`
+            toks.insert(rng.randint(0, len(toks) - 1), ("n", "$%s=%s" % (k_, s_)))
+        # a named value directly followed by a positional must not be a container / negative literal either: regenerate such named values as scalars
+        args = " ".join(t_[1] for t_ in toks)
+    else:
+        args = " ".join(s for s, _ in pos)
+        if named_items:
+            args += " " + " ".join("$%s=%s" % (k, s) for k, (s, _) in named_items)
     args = args.strip()
     form = form or rng.choice(FORMS)
     exp = {}
